@@ -73,7 +73,10 @@ def serde_payloads(tier, rng):
              'rename(serialize = "s", deserialize = "d")', 'rename_all(serialize = "kebab-case")',
              'alias = "rename", rename = "r"', 'rename_all = "nope"', 'with = "rename_all"', 'rename_all = "PascalCase"',
              'bound = "T: rename_all<U>", rename = "b"', 'rename ="x" , rename_all= "lowercase"', 'tag = "rename = \\"t\\""',
-             'rename _all = "UPPERCASE"', 'renamerename_all = "kebab-case"']
+             'rename _all = "UPPERCASE"', 'renamerename_all = "kebab-case"', 'rename(deserialize = "d")',
+             'rename_all(serialize = "camelCase", deserialize = "snake_case")', 'rename_all_fields = "camelCase", rename = "r"',
+             'prename = "x", rename = "y"', 'rename(deserialize = "d", serialize = "s)"), rename_all = "lowercase"',
+             'rename  (  serialize="a"  )', 'y = "renamea_all = \\"w\\""', 'rename(serialize("x"))', 'rename = rename = "z"']
     for b in bases:
         out.append(b)
         for ins in MB + ['"', "\\", "=", " ", "_all"]:
